@@ -24,6 +24,11 @@ import QlibcModel.Props.C09
 import QlibcModel.Props.C10
 import QlibcModel.Props.C12Mem
 import QlibcModel.Props.C12Map
+import QlibcModel.Shapes.Tree
+import QlibcModel.Shapes.Hashtbl
+import QlibcModel.Shapes.Listtbl
+import QlibcModel.Shapes.Seq
+import QlibcModel.Shapes.Harr
 
 namespace Qlibc.Props.C12
 open Qlibc Qlibc.Tree Qlibc.Tree.T
